@@ -65,10 +65,14 @@ class Effect:
         return self.cid.rsplit("::", 1)[-1]
 
 
-def iteration_effects(ev, env, depth=0, max_depth=6, seen=None):
+def iteration_effects(ev, env, depth=0, max_depth=6, seen=None, enters=False):
     body = env.body
     if seen is None:
         seen = set()
+    if enters:
+        # one record per inlined instance (body + environment with bound arguments): lets callers analyse
+        # non-call sites (asserts, bounds checks) of helpers and closures in their calling context
+        yield Effect("enter", "enter", None, [], None, body, 0, env)
     for bi in sorted(body.live_blocks()):
         bb = body.blocks[bi]
         # stores through pointers: (*p) = v
@@ -98,7 +102,7 @@ def iteration_effects(ev, env, depth=0, max_depth=6, seen=None):
             cb = ev.facts.bodies[key]
             sub = ev.inline_env(cb, {i + 1: x for i, x in enumerate(args)}, depth + 1, env.path + ((body.key, bi),))
             sub.parent = env
-            for r in iteration_effects(ev, sub, depth + 1, max_depth, seen):
+            for r in iteration_effects(ev, sub, depth + 1, max_depth, seen, enters):
                 yield r
             continue
         if cid in ("std::ops::FnOnce::call_once", "std::ops::FnMut::call_mut", "std::ops::Fn::call") and len(args) == 2 and \
@@ -114,7 +118,7 @@ def iteration_effects(ev, env, depth=0, max_depth=6, seen=None):
                     a[off + i] = x
                 sub = ev.inline_env(cb, a, depth + 1, env.path + ((body.key, bi),))
                 sub.parent = env
-                for r in iteration_effects(ev, sub, depth + 1, max_depth, seen):
+                for r in iteration_effects(ev, sub, depth + 1, max_depth, seen, enters):
                     yield r
                 continue
         yield Effect("call", cid, fn.get("self_adt"), [norm_elems(a) for a in args], t, body, bi, env, list(args))
@@ -133,6 +137,27 @@ def iteration_effects(ev, env, depth=0, max_depth=6, seen=None):
             if args:
                 o = ev.as_opt(args[0]) if args[0][0] != "none" else None
                 param = o[1] if o else None
+        gen_params = None
+        if "nalgebra" in cid and name in ("from_fn", "from_fn_generic") and args and args[-1][0] == "closure":
+            # generator closure (i, j) over the given dimensions
+            dims = list(args[:-1]) + [("const", "usize", 1)]
+            mk = lambda d, k: ("elem", ("drv", ("agg", "std::ops::Range", None, (("start", ("const", "usize", 0)), ("end", d))), (args[-1][1], body.key, bi, env.path, k)))
+            gen_params = (len(args) - 1, [mk(dims[0], 0), mk(dims[1], 1)])
+        elif "nalgebra" in cid and name in ("map", "map_with_location", "apply", "apply_into") and len(args) == 2 and args[1][0] == "closure":
+            gen_params = (1, [("elem", ("drv", ("call", "nalgebra::Matrix::iter", None, (args[0],), None), (args[1][1], body.key, bi, env.path)))])
+        if gen_params is not None and depth < max_depth:
+            ci, ps = gen_params
+            c = args[ci]
+            cb = ev.facts.bodies.get(c[1])
+            if cb is not None and (c[1], bi, body.key) not in seen:
+                seen.add((c[1], bi, body.key))
+                a = {1: c}
+                for i, x in enumerate(ps):
+                    a[2 + i] = x
+                sub = ev.inline_env(cb, a, depth + 1, env.path + ((body.key, bi),))
+                sub.parent = env
+                for r in iteration_effects(ev, sub, depth + 1, max_depth, seen, enters):
+                    yield r
         if clo_idx is not None and param is not None and len(args) > clo_idx and args[clo_idx][0] == "closure" and depth < max_depth:
             c = args[clo_idx]
             cb = ev.facts.bodies.get(c[1])
@@ -146,7 +171,7 @@ def iteration_effects(ev, env, depth=0, max_depth=6, seen=None):
                     a[2] = param
                 sub = ev.inline_env(cb, a, depth + 1, env.path + ((body.key, bi),))
                 sub.parent = env
-                for r in iteration_effects(ev, sub, depth + 1, max_depth, seen):
+                for r in iteration_effects(ev, sub, depth + 1, max_depth, seen, enters):
                     yield r
 
 
